@@ -38,3 +38,32 @@ def copula_model(dim=2, kind="clayton", margins="hem"):
 def wf_axis(ax, o, h, tol=1e-12):
     ax = np.asarray(ax, dtype=float)
     return bool(np.all(np.diff(ax) > 0) and 1 <= o < len(ax) - 1 and abs(ax[o]) <= tol and abs(ax[o - 1] + h) <= tol * 10 + 1e-12 and abs(ax[o + 1] - h) <= 1e-12)
+
+
+def chain_mean_defect(model, grid, tol=1e-6):
+    """native oracle for C04: |(process drift + sum_k x_k rate_k - model drift) - Levy-Khintchine mean of the truncated process|,
+    the latter from quadrature of the model's own density in the model's own representation."""
+    from scipy.integrate import quad
+    from rpylib.process.markovchain.markovchain import MarkovChainProcess
+    from rpylib.distribution.sampling import SamplingMethod
+    from rpylib.distribution.samplingfactory import create_q_vector
+    from rpylib.product.product import Product
+    from rpylib.product.underlying import Spot
+    from rpylib.product.payoff import Forward
+    t = model.levy_triplet
+    rep, a0, nu = t.representation.name, t.a, t.nu
+    l, r = grid.truncations[0]
+    f = lambda x: x * float(nu(x))
+    Tm = quad(f, l, -1, limit=200)[0] if l < -1 else 0.0
+    Tp = quad(f, 1, r, limit=200)[0] if r > 1 else 0.0
+    T = Tm + Tp
+    fv = nu.jump_of_finite_variation()
+    K = None
+    if rep in ("ZERO",) or (rep == "TILDE" and fv):
+        K = quad(f, max(-1, l), 0, limit=200)[0] + quad(f, 0, min(1, r), limit=200)[0]
+    mean = {"CENTER": lambda: a0, "ONEONE": lambda: a0 + T, "ZERO": lambda: a0 + K + T, "TILDE": lambda: (a0 + K + T) if fv else a0 + T}[rep]()
+    proc = MarkovChainProcess(model, SamplingMethod.INVERSION, grid)
+    proc.initialisation(Product(payoff_underlying=Spot(), payoff=Forward(strike=100.0), maturity=1.0))
+    q = create_q_vector(proc.model.levy_triplet.nu, grid)
+    chain = float(np.ravel(proc.process_drift())[0]) + float(np.dot(grid.axes[0], q)) - float(np.ravel(model.drift())[0])
+    return abs(chain - mean), {"representation": rep, "chain_mean": chain, "truncated_process_mean": mean}
